@@ -381,6 +381,35 @@ def run_case(c, rng):
     epa = tr_e.results if tr_e.ok else None
     # ---- WNTR with every solved instant reported ---------------------------------------------------
     wn.options.time.report_timestep = 'ALL'
+    # every fifth schedule is run in two legs (duration raised, run_sim called again with a new simulator, no reset): the instants
+    # at which controls and rules act are the same as in one run, wherever the pause lies relative to the rule grid
+    import random as _random
+    side = _random.Random(c.index * 334214459 + opts['hyd'] + opts['rule'])
+    pause = None
+    if side.random() < 0.3 and opts['duration'] >= 3 * opts['hyd']:
+        pause = opts['hyd'] * side.randint(1, opts['duration'] // opts['hyd'] - 1)
+        # preferably right before the rule instant at which some sim-time rule first becomes true
+        firsts = []
+
+        def leaves(cond):
+            if cond['kind'] in ('and', 'or'):
+                return leaves(cond['a']) + leaves(cond['b'])
+            return [cond]
+        for cs in schedule:
+            if cs['kind'] != 'rule':
+                continue
+            for lf in leaves(cs['cond']):
+                T = lf['time'] if lf['kind'] == 'simtime' else (lf['time'] - opts['start']) % DAY
+                r_ = -(-T // opts['rule']) * opts['rule'] + (opts['rule'] if lf['op'] in ('>', '<=') and T % opts['rule'] == 0 else 0)
+                p_ = opts['hyd'] * ((r_ - 1) // opts['hyd'])
+                if 0 < p_ < opts['duration'] and r_ <= opts['duration'] and p_ % opts['rule'] != 0:
+                    firsts.append(p_)
+        if firsts and side.random() < 0.8:
+            pause = side.choice(firsts)
+            c.count('pauses_right_before_a_rule_instant')
+        wit = dict(wit, run_in_two_legs_paused_at=pause)
+        c.count('schedules_run_in_two_legs')
+        wn.options.time.duration = pause
     tr = simobs.run_wntr(wn, deep=False)
     if tr.exception is not None:
         c.violate('run_sim_raised', 'WNTRSimulator.run_sim raised %s: %s' % (type(tr.exception).__name__, tr.exception), traceback=tr.traceback, **wit)
@@ -390,6 +419,18 @@ def run_case(c, rng):
         return
     res = tr.results
     S, SET = res.link['status'], res.link['setting']
+    if pause is not None:
+        import pandas as pd
+        wn.options.time.duration = opts['duration']
+        tr2 = simobs.run_wntr(wn, deep=False)
+        if tr2.exception is not None:
+            c.violate('run_sim_raised', 'second leg: WNTRSimulator.run_sim raised %s: %s' % (type(tr2.exception).__name__, tr2.exception), traceback=tr2.traceback, **wit)
+            return
+        if not simobs.converged(tr2):
+            c.inconclusive('sim_failed')
+            return
+        S = pd.concat([S, tr2.results.link['status']])
+        SET = pd.concat([SET, tr2.results.link['setting']])
     index = [int(x) for x in S.index]
 
     def observed(key, i):
